@@ -72,6 +72,9 @@ class syntax_error(SourceFeedback):
     def __init__(self, line, filename, code, col_offset,
                  exception, exc_info, enhance=True, **kwargs):
         report = kwargs.get('report', MAIN_REPORT)
+        # Some syntax errors have no position (e.g., source code with null bytes)
+        if line is None:
+            line = 1
         files = report.submission.get_files_lines()
         if filename not in files:
             files[filename] = code.split("\n")
